@@ -41,8 +41,29 @@ CONTRACTS = {
         # what goes into the model file: one (type, count) entry per distinct type, in key order
         "ensures": {"entries": "len(result) == len(self) and all(result[p].eventType == list(self)[p] and result[p].count == self[list(self)[p]] for p in range(len(self)))"},
     },
+    # the counts each successor type was seen with (what the branch / repeat logic of the gate tree is computed from)
+    "get_event_set_counts": {
+        "params": {"event_sets": "set[dict[str, int]]"},
+        "locals": {"event_set_counts": "dict[str, set[int]]"},
+        "ensures": {
+            "types": "forall(lambda t: (t in result) == any(t in es for es in event_sets), 'str')",
+            "counts": "forall(lambda t, c: implies(t in result, (c in result[t]) == any(t in es and es[t] == c for es in event_sets)), 'str', 'int')",
+        },
+        "loops": {
+            0: {"index": "i", "seq": "ess", "invariant": {
+                "types": "forall(lambda t: (t in event_set_counts) == any(t in ess[p] for p in range(i)), 'str')",
+                "counts": "forall(lambda t, c: implies(t in event_set_counts, (c in event_set_counts[t]) == any(t in ess[p] and ess[p][t] == c for p in range(i))), 'str', 'int')",
+            }},
+            1: {"index": "j", "seq": "its", "invariant": {
+                "src": "its == list(event_set.items())",
+                "types": "forall(lambda t: (t in event_set_counts) == (any(t in ess[p] for p in range(i)) or any(its[q][0] == t for q in range(j))), 'str')",
+                "counts": "forall(lambda t, c: implies(t in event_set_counts, (c in event_set_counts[t]) == (any(t in ess[p] and ess[p][t] == c for p in range(i)) "
+                          "or any(its[q][0] == t and its[q][1] == c for q in range(j)))), 'str', 'int')",
+            }},
+        },
+    },
 }
-ORDER = ["EventSet.__init__", "EventSet.is_subset", "EventSet.get_repeated_events", "EventSet.to_frozenset", "EventSet.to_event_set_count_input_list"]
+ORDER = ["get_event_set_counts", "EventSet.__init__", "EventSet.is_subset", "EventSet.get_repeated_events", "EventSet.to_frozenset", "EventSet.to_event_set_count_input_list"]
 
 
 def setup(V):
@@ -56,3 +77,55 @@ def setup(V):
         x = self.coerce(self.expr(n.args[1], st), xs.ty.elem)
         return Val(self.pre.seqf(xs.ty, "count")(xs.t, x.t), INT)
     V.builtins["count"] = b_count
+
+
+# ----------------------------------------------------------------------------- native reading (runtime contracts on the real class)
+def native_env(nat):
+    def count(xs, x):
+        return sum(1 for y in xs if y == x)
+    return {"count": count}
+
+
+def _es(nat, rng, allow_empty=True):
+    import importlib
+    ev = importlib.import_module("tel2puml.events")
+    return ev.EventSet([rng.choice("ABCD") for _ in range(rng.randrange(0 if allow_empty else 1, 6))])
+
+
+def _gen_init(nat, rng, n):
+    import importlib
+    ev = importlib.import_module("tel2puml.events")
+    for _ in range(n):
+        yield {"self": ev.EventSet([]), "events": [rng.choice("ABCD") for _ in range(rng.randrange(0, 7))]}
+
+
+def _gen_self(nat, rng, n):
+    for _ in range(n):
+        yield {"self": _es(nat, rng)}
+
+
+def _gen_two(nat, rng, n):
+    for _ in range(n):
+        yield {"self": _es(nat, rng), "other": _es(nat, rng)}
+
+
+def _gen_sets(nat, rng, n):
+    for _ in range(n):
+        yield {"event_sets": {_es(nat, rng) for _ in range(rng.randrange(0, 5))}}
+
+
+GEN = {"EventSet.__init__": _gen_init, "EventSet.is_subset": _gen_two, "EventSet.get_repeated_events": _gen_self, "EventSet.to_frozenset": _gen_self,
+       "EventSet.to_event_set_count_input_list": _gen_self, "get_event_set_counts": _gen_sets}
+ENCODE = {f: (lambda a: {k: (sorted(map(dict, v), key=str) if isinstance(v, set) else (dict(v) if isinstance(v, dict) else v)) for k, v in a.items()}) for f in GEN}
+
+
+def _dec(nat, e):
+    import importlib
+    ev = importlib.import_module("tel2puml.events")
+
+    def mk(d):
+        return ev.EventSet([t for t, c in d.items() for _ in range(c)])
+    return {k: ({mk(x) for x in v} if k == "event_sets" else (mk(v) if isinstance(v, dict) else v)) for k, v in e.items()}
+
+
+DECODE = {f: _dec for f in GEN}
